@@ -1,6 +1,7 @@
 import NA.Props.C16
 import NA.Model.MapSitesDeep
 import NA.Gen.MapRangesDeep
+import NA.Gen.MapRangesDescr
 /-!
 # C16, round 3 — the transitive tie, sorted loops, third-party code, other sources
 
@@ -91,21 +92,23 @@ example : firstFree [] = 0 := by decide
 /-! ## The transitive tie -/
 
 def DeepExpect.matchesSite (e : DeepExpect) (d : DeepSite) : Bool :=
-  e.file == d.file && e.fn == d.fn && e.mapExpr == d.mapExpr && e.ord == d.ord && e.chash == d.chash
+  e.file == d.file && e.fn == d.fn && e.chash == d.chash
 
-def deepUncovered : List DeepSite := deepSites.filter (fun d => !deepExpected.any (·.matchesSite d))
+/-- A described loop needs no closure hash (the descriptor pass reads the whole callee closure and makes
+the loop opaque as soon as the closure has an order-relevant kind); an opaque loop must match a row by
+file, function and hash of its alpha-normalised closure, with kinds within the admitted ones. -/
+def deepTied (d : DeepSite) (ds : NA.C16.D.SiteDescr) : Bool :=
+  (d.file == ds.file && d.fn == ds.fn && d.mapExpr == ds.mapExpr && d.ord == ds.ord) &&
+    (ds.body.described || deepExpected.any (fun e => e.matchesSite d && d.kinds.all (e.allow.contains ·)))
 
-def inadmissible : List DeepSite :=
-  deepSites.filter (fun d => deepExpected.any (fun e => e.matchesSite d && !d.kinds.all (e.allow.contains ·)))
+def deepUncovered : List (DeepSite × NA.C16.D.SiteDescr) :=
+  (deepSites.zip NA.Gen.MapRangesDescr.descrs).filter (fun p => !deepTied p.1 p.2)
 
--- Diagnostic only: name the loops whose transitive closure changed or does something order relevant.
+-- Diagnostic only: name the undescribed loops whose transitive closure changed or does something order relevant.
 #eval (do
   unless deepUncovered.isEmpty do
-    throw (IO.userError ("C16: range-over-map loops whose text OR CALLEES changed (no matching closure hash): " ++
-      toString (deepUncovered.map fun s => s!"{s.file} {s.fn} range {s.mapExpr} #{s.ord} chash={s.chash} kinds={s.kinds} fx=[{s.fx}] callees={s.callees}")))
-  unless inadmissible.isEmpty do
-    throw (IO.userError ("C16: unsorted range-over-map loops that can abort / print / append changes / call unknown code: " ++
-      toString (inadmissible.map fun s => s!"{s.file} {s.fn} range {s.mapExpr} kinds={s.kinds} fx=[{s.fx}]")))
+    throw (IO.userError ("C16: range-over-map loops that the translator cannot describe and whose loop text or callees changed, or whose closure can abort / print / append changes / call unknown code: " ++
+      toString (deepUncovered.map fun p => s!"{p.1.file} {p.1.fn} range {p.1.mapExpr} #{p.1.ord} chash={p.1.chash} kinds={p.1.kinds} fx=[{p.1.fx}] callees={p.1.callees} descriptor={repr p.2.body}")))
   : IO Unit)
 
 /-- The deep table talks about exactly the sites of the base table, in the same order. -/
@@ -113,15 +116,20 @@ theorem deep_sites_are_the_sites :
     deepSites.map (fun d => (d.file, d.fn, d.mapExpr, d.ord)) = sites.map (fun s => (s.file, s.fn, s.mapExpr, s.ord)) := by
   decide
 
-/-- **Transitive tie.** For every unsorted `range` over a map, the hash of the loop text together
-with the text of everything the body transitively calls inside the module is the expected one. -/
-theorem deep_sites_covered : deepSites.all (fun d => deepExpected.any (·.matchesSite d)) = true := by decide
+/-- **Transitive tie for the loops without descriptor.** Every unsorted `range` over a map is described,
+or the hash of its alpha-normalised loop text together with the normalised text of everything the body
+transitively calls inside the module is the expected one, and its closure has only admitted effect kinds. -/
+theorem deep_sites_covered :
+    deepSites.length = NA.Gen.MapRangesDescr.descrs.length ∧
+    (deepSites.zip NA.Gen.MapRangesDescr.descrs).all (fun p => deepTied p.1 p.2) = true := by decide
 
-/-- No unsorted loop over a map can (transitively) abort, print, append to the change script, call
-code the translator cannot resolve, read another source of nondeterminism or write a package
-variable — except the two admitted cases, discharged by the two facts below. -/
+/-- A loop whose closure can abort, print, append to the change script, call code the translator
+cannot resolve, read another source of nondeterminism or write a package variable is never
+"described": such kinds occur only at the loops with a row, within what the row admits. -/
 theorem deep_kinds_admissible :
-    deepSites.all (fun d => deepExpected.all (fun e => !e.matchesSite d || d.kinds.all (e.allow.contains ·))) = true := by
+    (deepSites.zip NA.Gen.MapRangesDescr.descrs).all (fun p =>
+      p.1.kinds.isEmpty || (!p.2.body.described &&
+        deepExpected.any (fun e => e.matchesSite p.1 && p.1.kinds.all (e.allow.contains ·)))) = true := by
   decide
 
 theorem deep_exceptions_are_two :
@@ -136,25 +144,20 @@ theorem quote_token_only_in_subcommands : quoteTemplatePrefixes = [] := by decid
 the `warn` of the default case is never reached from the loop over `defaultVals`. -/
 theorem default_keys_known : defaultVals.all (fun kv => configKeys.contains kv.1) = true := by decide
 
-/-- Every site: hash tie to a shape (round 1: `every_site_hash_tied_to_shape`) **and** pinned hash of the
-transitive callee closure with admissible effect kinds. (What the body does is read off the source in
-Props/C16Run.lean.) -/
-theorem every_site_closure_hash_tied :
-    ∀ s, s ∈ sites → (∃ e, e ∈ expected ∧
-        e.matchesSite s.file s.fn s.mapExpr s.ord s.hash s.cls = true ∧ ShapeHolds e.shape) ∧
-      (∃ d, d ∈ deepSites ∧ (d.file, d.fn, d.mapExpr, d.ord) = (s.file, s.fn, s.mapExpr, s.ord) ∧
-        ∃ de, de ∈ deepExpected ∧ de.matchesSite d = true ∧ d.kinds.all (de.allow.contains ·) = true) := by
-  intro s hs
-  refine ⟨every_site_hash_tied_to_shape s hs, ?_⟩
-  have hmem : (s.file, s.fn, s.mapExpr, s.ord) ∈ deepSites.map (fun d => (d.file, d.fn, d.mapExpr, d.ord)) := by
-    rw [deep_sites_are_the_sites]
-    exact List.mem_map.mpr ⟨s, hs, rfl⟩
-  obtain ⟨d, hd, hid⟩ := List.mem_map.mp hmem
-  refine ⟨d, hd, hid, ?_⟩
-  obtain ⟨de, hde, hm⟩ := List.any_eq_true.mp (List.all_eq_true.mp deep_sites_covered d hd)
-  refine ⟨de, hde, hm, ?_⟩
-  have h := List.all_eq_true.mp (List.all_eq_true.mp deep_kinds_admissible d hd) de hde
-  simpa [hm] using h
+/-- Every site is described, or tied by the hash of its loop text (`every_site_described_or_hash_tied`)
+AND by the hash of its transitive callee closure with admitted effect kinds. -/
+theorem every_site_closure_tied :
+    ∀ p, p ∈ deepSites.zip NA.Gen.MapRangesDescr.descrs →
+      p.2.body.described = true ∨
+      ∃ de, de ∈ deepExpected ∧ de.matchesSite p.1 = true ∧ p.1.kinds.all (de.allow.contains ·) = true := by
+  intro p hp
+  have h := List.all_eq_true.mp deep_sites_covered.2 p hp
+  simp only [deepTied, Bool.and_eq_true, Bool.or_eq_true] at h
+  rcases h.2 with hd | hr
+  · exact Or.inl hd
+  · obtain ⟨e, he, hm⟩ := List.any_eq_true.mp hr
+    simp only [Bool.and_eq_true] at hm
+    exact Or.inr ⟨e, he, hm.1, hm.2⟩
 
 /-! ## Sorted loops: shape instead of hash -/
 
@@ -223,7 +226,7 @@ namespace NA.C16.Deep
 def obligations : List Lean.Name := [
   ``NA.C16.any_sort_deterministic, ``NA.C16.any_sort_of_map_keys, ``NA.C16.mergeSort_sorts, ``NA.C16.intLe_lawful, ``NA.C16.firstFree_least,
   ``NA.C16.deep_sites_are_the_sites, ``NA.C16.deep_sites_covered, ``NA.C16.deep_kinds_admissible, ``NA.C16.deep_exceptions_are_two,
-  ``NA.C16.quote_token_only_in_subcommands, ``NA.C16.default_keys_known, ``NA.C16.every_site_closure_hash_tied,
+  ``NA.C16.quote_token_only_in_subcommands, ``NA.C16.default_keys_known, ``NA.C16.every_site_closure_tied,
   ``NA.C16.sorted_inner_covered, ``NA.C16.no_source_inside_map_loops, ``NA.C16.ext_sites_unreachable,
   ``NA.C16.planning_sources_classified, ``NA.C16.no_concurrency_in_planning, ``NA.C16.natural_sorts_total,
   ``NA.C16.comparator_sorts_from_maps]
